@@ -35,7 +35,14 @@ class Undecided(Exception):
 
 
 class Trace:
-    def __init__(self):
+    def __init__(self, split_roots=False, positive_exprs=()):
+        # split_roots: a root of a product of positive factors is the product of the roots of the factors (primes, pi, positive symbols, declared
+        # positive expressions): equal quantities written differently ((3 / (4 pi n))**(1/3) and 6**(1/3) (1/n)**(1/3) / pi**(1/3) ...) get ONE normal form
+        self.split_roots = split_roots
+        self.positive_exprs = [sp.expand(sp.sympify(x)) for x in positive_exprs]
+        self._funs = {}
+        self._pows = {}
+        self._opaque = {}
         self.defs = {}  # symbol -> definition (expr over earlier symbols)
         self.order = {}  # symbol -> creation index
         self.atoms = {}  # symbol -> ("root", base, d) | ("exp", u) | ("log", u) | ("opaque", rule)
@@ -46,7 +53,7 @@ class Trace:
 
     def fresh(self, name, positive=False):
         self.n += 1
-        s = sp.Symbol(f"{name}__{self.n}", positive=positive, real=True)
+        s = sp.Symbol(f"{name}__{self.n}", positive=(True if positive else None), real=True)
         self.order[s] = self.n
         return s
 
@@ -66,15 +73,93 @@ class Trace:
         return s
 
     def inp(self, name, positive=False):
-        s = sp.Symbol(name, positive=positive, real=True)
+        s = sp.Symbol(name, positive=(True if positive else None), real=True)
         self.inputs.add(s)
         self.order.setdefault(s, 0)
         return s
+
+    def unfold(self, e):
+        """e with every local definition replaced by its defining expression (atoms stay)."""
+        e = sp.sympify(e)
+        while True:
+            c = [x for x in e.free_symbols if x in self.defs]
+            if not c:
+                return e
+            e = e.xreplace({x: self.defs[x] for x in c})
+
+    def canon(self, e):
+        """Key under which two argument expressions count as the same quantity."""
+        if isinstance(e, (list, tuple)):
+            return tuple(self.canon(x) for x in e)
+        if isinstance(e, sp.Expr):
+            return sp.expand(self.unfold(e))
+        return e
+
+    def known_positive(self, e):
+        """True / False / None for the sign of e under the declared assumptions (positive inputs, positive_exprs)."""
+        e = sp.expand(self.unfold(e))
+        if e.is_positive:
+            return True
+        if e.is_negative or e.is_zero:
+            return False
+        for p in self.positive_exprs:
+            if sp.expand(e - p) == 0:
+                return True
+            if sp.expand(e + p) == 0:
+                return False
+        f = sp.factor(e)
+        if f.is_Mul:
+            sign = 1
+            for a in f.args:
+                b, ex = a.as_base_exp()
+                k = True if b.is_positive else (self.known_positive(b) if b.is_Add or b.is_Symbol else (False if b.is_negative else None))
+                if k is None or not ex.is_Integer:
+                    return None
+                if k is False and int(ex) % 2:
+                    sign = -sign
+            return sign > 0
+        return None
+
+    def _root_atom(self, base, d):
+        key = (base, d)
+        r = self._roots.get(key)
+        if r is None:
+            r = self.fresh("root", positive=True)
+            self.atoms[r] = ("root", base, d)
+            self._roots[key] = r
+        return r
+
+    def _split_root(self, base, q):
+        b = sp.factor(self.unfold(base))
+        out = sp.Integer(1)
+        for a in sp.Mul.make_args(b):
+            f, e = a.as_base_exp()
+            if not e.is_Integer:
+                return None
+            if f.is_Rational:
+                if f <= 0:
+                    return None
+                for sign, part in ((1, f.p), (-1, f.q)):
+                    for prime, mult in sp.factorint(part).items():
+                        k = int(e) * mult * sign * q.p
+                        out *= sp.Integer(prime) ** (k // q.q) * self._root_atom(sp.Integer(prime), q.q) ** (k % q.q)
+                continue
+            if f.is_Add:
+                f = sp.expand(f)
+            if self.known_positive(f) is not True:
+                return None
+            k = int(e) * q.p
+            out *= f ** (k // q.q) * self._root_atom(f, q.q) ** (k % q.q)
+        return out
 
     def root(self, base, q):
         """base ** q for rational non-integer q = p / d: atom r = base**(1/d), value r**p."""
         q = sp.Rational(q)
         base = sp.sympify(base)
+        if self.split_roots:
+            v = self._split_root(base, q)
+            if v is not None:
+                return v
         key = (base, q.q)
         r = self._roots.get(key)
         if r is None:
@@ -84,8 +169,43 @@ class Trace:
         return r ** q.p
 
     def fun(self, kind, u):
+        if self.split_roots:
+            # memoised: the same function of the same quantity is the same atom; log 1 = 0, exp 0 = 1, tanh 0 = 0; log of a number is a named constant
+            key = (kind, self.canon(u))
+            if key[1] == (1 if kind == "log" else 0):
+                return sp.Integer(0 if kind in ("log", "tanh") else 1)
+            if kind == "log" and key[1].is_Rational and key[1] > 0:
+                return self.const(f"log{key[1]}")
+            s = self._funs.get(key)
+            if s is None:
+                s = self.fresh(kind, positive=(kind == "exp"))
+                self.atoms[s] = (kind, sp.sympify(u))
+                self._funs[key] = s
+            return s
         s = self.fresh(kind, positive=(kind == "exp"))
         self.atoms[s] = (kind, sp.sympify(u))
+        return s
+
+    def power(self, base, expo):
+        """base ** expo for a symbolic exponent (base > 0): atom P with D P = P (D expo log base + expo D base / base)."""
+        kb, ke = self.canon(base), self.canon(expo)
+        if kb == 1:
+            return sp.Integer(1)
+        if self.known_positive(base) is not True:
+            raise OutsideSubset(f"power with a symbolic exponent of a base whose sign is not known: {base}")
+        s = self._pows.get((kb, ke))
+        if s is None:
+            s = self.fresh("pow", positive=True)
+            self.atoms[s] = ("pow", sp.sympify(base), sp.sympify(expo))
+            self._pows[(kb, ke)] = s
+        return s
+
+    def opaque_memo(self, key, name, rule):
+        s = self._opaque.get(key)
+        if s is None:
+            s = self.fresh(name)
+            self.atoms[s] = ("opaque", rule)
+            self._opaque[key] = s
         return s
 
     def opaque(self, name, rule):
@@ -120,6 +240,10 @@ class Deriv:
                 val = s * self.of_expr(a[1])
             elif a[0] == "log":
                 val = self.of_expr(a[1]) / a[1]
+            elif a[0] == "tanh":
+                val = (1 - s**2) * self.of_expr(a[1])
+            elif a[0] == "pow":
+                val = s * (self.of_expr(a[2]) * tr.fun("log", a[1]) + a[2] * self.of_expr(a[1]) / a[1])
             else:
                 val = a[1](self)
         else:
@@ -178,6 +302,8 @@ class Exec:
             if isinstance(st, ast.Assign):
                 if len(st.targets) != 1:
                     raise OutsideSubset("chained assignment")
+                if isinstance(st.targets[0], ast.Attribute) and ast.unparse(st.targets[0]) == ast.unparse(st.value):
+                    continue  # `p.theta = p.theta`: no effect on the value semantics
                 self.assign(st.targets[0], self.ev(st.value, env), env)
             elif isinstance(st, ast.With):
                 r = self.block(st.body, env)
@@ -225,6 +351,12 @@ class Exec:
             d = ast.unparse(e)
             if d == "math.pi":
                 return self.tr.const("pi")
+            if isinstance(e.value, ast.Name) and e.value.id in env and hasattr(env[e.value.id], "ssa_getattr"):
+                return env[e.value.id].ssa_getattr(e.attr, self)
+            if getattr(self, "global_attr", None) is not None:
+                v = self.global_attr(d)
+                if v is not None:
+                    return v
             raise OutsideSubset(f"attribute {d}")
         if isinstance(e, (ast.List, ast.Tuple)):
             return [self.ev(x, env) for x in e.elts]
@@ -264,6 +396,8 @@ class Exec:
             return a / b
         if isinstance(op, ast.Pow):
             if not b.is_Rational:
+                if self.tr.split_roots:
+                    return self.tr.power(a, b)
                 raise OutsideSubset("symbolic exponent")
             if b.is_Integer:
                 return a ** b
@@ -275,6 +409,23 @@ class Exec:
 
     def call(self, e, env):
         f = ast.unparse(e.func)
+        if f in ("xp.where", "np.where") and len(e.args) == 3 and isinstance(e.args[0], ast.Compare) and len(e.args[0].ops) == 1:
+            # element-wise selection: decided by the declared assumptions (a generic point of the stated region); the other branch is not evaluated
+            c = e.args[0]
+            lhs, rhs = self.ev(c.left, env), self.ev(c.comparators[0], env)
+            op = c.ops[0]
+            if isinstance(op, (ast.Gt, ast.GtE)):
+                diff = lhs - rhs
+            elif isinstance(op, (ast.Lt, ast.LtE)):
+                diff = rhs - lhs
+            else:
+                raise OutsideSubset(f"condition {ast.unparse(c)}")
+            k = self.tr.known_positive(diff)
+            if k is None:
+                raise OutsideSubset(f"the sign of {ast.unparse(c)} does not follow from the assumptions")
+            return self.ev(e.args[1] if k else e.args[2], env)
+        if isinstance(e.func, ast.Name) and e.func.id in env and hasattr(env[e.func.id], "ssa_call"):
+            return env[e.func.id].ssa_call(self, [self.ev(a, env) for a in e.args], {k.arg: self.ev(k.value, env) for k in e.keywords if k.arg is not None})
         args = [self.ev(a, env) for a in e.args if not isinstance(a, ast.Starred)]
         kw = {k.arg: self.ev(k.value, env) for k in e.keywords if k.arg is not None}
         if f == "math.log":
@@ -285,6 +436,10 @@ class Exec:
             return self.tr.fun("exp", args[0])
         if f in ("xp.log", "np.log"):
             return self.tr.fun("log", args[0])
+        if f in ("xp.tanh", "np.tanh"):
+            return self.tr.fun("tanh", args[0])
+        if f in ("xp.zeros_like", "np.zeros_like"):
+            return sp.Integer(0)
         if f in ("xp.sqrt", "np.sqrt", "math.sqrt"):
             return self.tr.root(args[0], sp.Rational(1, 2))
         if f in ("xp.linalg.norm", "np.linalg.norm"):
@@ -349,12 +504,12 @@ def prove_zero(tr: Trace, residual, budget=60.0, seed=0, log=None):
     import random
 
     rng = random.Random(seed)
-    t0 = time.time()
+    t0 = time.process_time()  # CPU time of this worker: the verdict must not depend on the load of the machine
     R = sp.sympify(residual)
     steps = 0
     while True:
-        if time.time() - t0 > budget:
-            raise Undecided(f"budget {budget}s exhausted after {steps} unfoldings")
+        if time.process_time() - t0 > budget:
+            raise Undecided(f"budget {budget}s (CPU) exhausted after {steps} unfoldings")
         free = R.free_symbols
         if not free:
             if sp.simplify(R) == 0:
